@@ -116,6 +116,13 @@ Theorem site_mask_list_typeerror : forall contig ps sites l,
   vcf_body (mk_input contig ps sites (MPyList l) false) = Err E_TYPE.
 Proof. exact list_mask_typeerror. Qed.
 
+(* position_transform="legacy": strictly increasing positions above 0, and the identity
+   on positions that already are. *)
+Theorem legacy_positions_increasing : forall rounded last,
+  increasing_from last (legacy_transform last rounded)
+  /\ (increasing_from last rounded -> legacy_transform last rounded = rounded).
+Proof. exact (fun rounded last => conj (legacy_increasing rounded last) (legacy_keeps_increasing rounded last)). Qed.
+
 (* Header: sample names are the given ones (their number must match) or tsk_0.. ;
    they follow the nine fixed columns; the contig length is the largest of 1, the
    transformed sequence length and the last transformed position (masked or not). *)
